@@ -176,3 +176,32 @@ Proof. reflexivity. Qed.
 Example ex_scale : check_residual_right 3 (mscale 8 exB) (vscale 4 [1; 2; 4000001#1000000]) (vscale 32 [4; 15; 2]) (1#100000) = true /\
                    check_residual_right 3 (mscale 8 exB) (vscale 4 [1; 2; 5]) (vscale 32 [4; 15; 2]) (1#100000) = false.
 Proof. vm_compute. split; reflexivity. Qed.
+
+(* ---- the update protocol (usetup): load / ...4update / change ---- *)
+(* Whatever the history of loads, prepared updates, solves and column replacements, a change that relies on the prepared vector
+   uses the vector that was prepared for the CURRENT matrix (every operation that changes the matrix drops the prepared vector). *)
+Theorem C10_prepared_update_is_for_current_matrix :
+  forall ops B0 o B v,
+    change_uses (p_run {| p_mat := B0; p_prep := None |} ops) o = Some (B, v) ->
+    B = p_mat (p_run {| p_mat := B0; p_prep := None |} ops).
+Proof. exact change_uses_current_lemma. Qed.
+Print Assumptions C10_prepared_update_is_for_current_matrix.
+
+(* the flag the implementation keeps (compared with SLUFactor::usetup after every operation of every history) *)
+Theorem C10_usetup_flag :
+  forall s o, usetup (p_step s o) = match o with PPrep _ => true | PSolve => usetup s | _ => false end.
+Proof. exact usetup_after_lemma. Qed.
+Print Assumptions C10_usetup_flag.
+
+(* the protocol machine and the specification machine agree on the matrix *)
+Theorem C10_protocol_matrix :
+  forall ops s, p_mat (p_run s ops) = lu_run (p_mat s) (flat_map p_erase ops).
+Proof. exact p_run_matrix_lemma. Qed.
+Print Assumptions C10_protocol_matrix.
+
+(* sharpness: a load() that kept the prepared vector would hand a later change a vector prepared for another matrix *)
+Theorem C10_stale_prepared_vector_refuted :
+  exists ops o B v, let s := fold_left p_step_stale ops {| p_mat := [[1; 0]; [0; 1]]; p_prep := None |} in
+    change_uses s o = Some (B, v) /\ B <> p_mat s.
+Proof. exact stale_load_refuted_lemma. Qed.
+Print Assumptions C10_stale_prepared_vector_refuted.
